@@ -324,12 +324,17 @@ theorem pushed_ok (G : LGraph) (hG : GraphHyp G) (cfg : Cfg) (pei pei' : List (N
 /-! ### third invariant: an argument node that only parameters lead to has its `In()` followed -/
 
 theorem argOnlyFromParam_spec {G : LGraph} {a : Nat} (h : argOnlyFromParam G a = true) (m : Nat) (i : Int) :
-    (a, i) ∉ (G.node m).ins ∧ (a, i) ∉ (G.node m).outs := by
+    (a, i) ∉ (G.node m).ins ∧ (G.kind m = .arg → (G.node m).bound = true → (a, i) ∉ (G.node m).outs) := by
   by_cases hm : m < G.nodes.size
   · unfold argOnlyFromParam at h
     have := (List.all_eq_true.mp h) m (List.mem_range.mpr hm)
-    simp only [Bool.and_eq_true, List.all_eq_true, bne_iff_ne, ne_eq] at this
-    exact ⟨fun hc => this.1 (a, i) hc rfl, fun hc => this.2 (a, i) hc rfl⟩
+    simp only [Bool.and_eq_true, List.all_eq_true, bne_iff_ne, ne_eq, Bool.or_eq_true, Bool.not_eq_true',
+      Bool.and_eq_false_imp, beq_iff_eq] at this
+    refine ⟨fun hc => this.1 (a, i) hc rfl, ?_⟩
+    intro hk hb hc
+    rcases this.2 with h2 | h2
+    · have := h2 hk; rw [hb] at this; cases this
+    · exact h2 (a, i) hc rfl
   · rw [node_default_of_ge' G m (Nat.le_of_not_lt hm)]
     obtain ⟨h1, h2, _⟩ := default_node_lists
     rw [h1, h2]
@@ -342,7 +347,8 @@ theorem cand_arg_from_param (G : LGraph) (hG : GraphHyp G) (cfg : Cfg) (pei : Li
     (c : Cand) (h : c ∈ (expand G cfg pei cur).cands) (hk : G.kind c.node = .arg)
     (ho : argOnlyFromParam G c.node = true) : G.kind cur.node = .param := by
   have noIn : ∀ i, (c.node, i) ∉ (G.node cur.node).ins := fun i => (argOnlyFromParam_spec ho cur.node i).1
-  have noOut : ∀ i, (c.node, i) ∉ (G.node cur.node).outs := fun i => (argOnlyFromParam_spec ho cur.node i).2
+  have noOut : ∀ i, G.kind cur.node = .arg → (G.node cur.node).bound = true → (c.node, i) ∉ (G.node cur.node).outs :=
+    fun i => (argOnlyFromParam_spec ho cur.node i).2
   have inC : ∀ {c' : Cand}, c' ∈ inCands G cur → c'.node = c.node → False := by
     intro c' h he; obtain ⟨i, hi⟩ := mem_inCands h; rw [he] at hi; exact noIn i hi
   have kindNe : ∀ {k : NKind}, G.kind c.node = k → k ≠ .arg → False := fun h hne => hne (by rw [← h, hk])
@@ -352,7 +358,7 @@ theorem cand_arg_from_param (G : LGraph) (hG : GraphHyp G) (cfg : Cfg) (pei : Li
   · rcases expandArg_cands G cfg cur c h with h | h | h
     · have hp := (mem_argToParam h).1
       exact (kindNe ((wk_at G hG.wk (G.node cur.node).parent).2.1 c.node (List.mem_of_getElem? hp)) (by simp)).elim
-    · obtain ⟨_, i, hi⟩ := mem_argOut h; exact (noOut i hi).elim
+    · obtain ⟨hb, i, hi⟩ := mem_argOut h; exact (noOut i hkc hb hi).elim
     · obtain ⟨i, hi⟩ := mem_argIn h; exact (noIn i hi).elim
   · exact (inC h rfl).elim
   · unfold expandCall at h
